@@ -65,7 +65,7 @@ def run_S(report, E, fnames, prefix=spec_bdd.B, closure=True):
 def static_mk_choice_sites(crate, fnames, prefix=spec_bdd.B):
     n = 0
     for f in fnames:
-        t = crate.thir.get(prefix + f)
+        t = getattr(crate, 'ithir', crate.thir).get(prefix + f)
         if not t: continue
         for e in walk(t['body']):
             if e['k'] == 'Call' and callee_name(e) == spec_bdd.B + 'mk_choice': n += 1
@@ -89,7 +89,7 @@ def check_C03(F, tier, t0):
         guarded(R, 'A3 (%s constructor)' % _cons, a3_filtered, F, R, _cons, 'A3:connective-constructors')
     guarded(R, 'A2 (connective syntax)', a2_filtered, F, R, ('If', 'Not', '<simple>', 'OpenParen'), 'A2:connective-syntax')
     guarded(R, 'S eval_recursive (connective arms)', arm_obligations, R, E, EVF, ('BinaryOp', 'Not', 'Ite', 'Const'), 'evaluator-connective-obligations')
-    R.floor('functions', 10); R.floor('worlds', 12); R.floor('mk_choice-call-sites', 4); R.floor('T:binary-operator-rows', 8); R.floor('evaluator-connective-obligations', 4)
+    R.floor('functions', 10); R.floor('worlds', 12); R.floor('mk_choice-call-sites', 1); R.floor('mk_choice-sites-x-worlds', 4); R.floor('T:binary-operator-rows', 8); R.floor('evaluator-connective-obligations', 4)
     guarded(R, 'X5', engine_x.rule_X5, F, R)      # distinct names are distinct symbols
     return finish(R, 'proof', tier, t0,
         'Inductive proof, by exhaustive enumeration of abstract worlds (leaf/choice shape of each operand, total pre-order of the compared symbols) of each '
@@ -195,9 +195,16 @@ def check_C02(F, tier, t0):
             if any(e['k'] == 'Call' and callee_name(e) == MK for e in walk(t['body'])):
                 callers.add(name.split('::{closure')[0])
     fns = []
+    import facts as _facts
     for name in sorted(callers):
         if name.startswith(spec_bdd.B) and name in E.specs and E.specs[name].post is not None:
             fns.append(name.split('::')[-1])
+        elif name not in _facts.baseline_fns() and _facts.baseline_roots(F.lib(), name) and \
+                all(r_.startswith(spec_bdd.B) and r_ in E.specs and E.specs[r_].post is not None for r_ in _facts.baseline_roots(F.lib(), name)):
+            # a new helper shared by specified operations: its mk_choice calls are judged where it is inlined, in the proofs of those operations
+            R.count('O:helpers-judged-in-callers')
+            for r_ in _facts.baseline_roots(F.lib(), name):
+                if r_.split('::')[-1] not in fns: fns.append(r_.split('::')[-1])
         else:
             R.obligation(False, 'O scope ' + name)
             R.violation('%s / O / mk_choice without an order proof' % name, 'O',
@@ -490,17 +497,21 @@ def check_C12(F, tier, t0):
             base = s.fn.split('::{closure')[0]
             if base not in _facts.baseline_fns():
                 roots = _facts.baseline_roots(s.crate, base)
-                if roots and len(roots) == 1:
-                    s2 = _copy.copy(s); s2.fn = next(iter(roots)); variants.append(s2)
-            for sv in variants:
+                for r_ in sorted(roots or ()):
+                    s2 = _copy.copy(s); s2.fn = r_; variants.append(s2)
+            def discharge(sv):
                 for rule in (D.R0, D.R11, D.R8, D.R4, D.R10, D.R6, D.RS):
                     try:
-                        reason = rule(sv)
+                        rr = rule(sv)
                     except Exception as ex:
-                        reason = None
-                    if reason: break
-                if reason: break
-            if reason is None and len(variants) == 2: reason = engine_p.site_table_reason(variants[1], F)
+                        rr = None
+                    if rr: return rr
+                return None
+            reason = discharge(variants[0])
+            if reason is None and len(variants) > 1:
+                # every function the helper runs on behalf of must discharge the site
+                rs = [discharge(sv) or engine_p.site_table_reason(sv, F) for sv in variants[1:]]
+                if all(rs): reason = rs[0] + (' (judged as a site of %s)' % ', '.join(v.fn.split('::')[-1] for v in variants[1:]))
             # a site inside a new helper function belongs to the anchored functions the helper was inlined into (X3 / X6 analysed it there)
             owners = attributed(s.fn.split('::{closure')[0])
             if reason is None and s.what.startswith(('Index', 'IndexMut', 'BoundsCheck')) and owners and owners <= {'rsbdd::print_truth_table_recursive', 'rsbdd::print_true_vars_recursive', 'rsbdd::print_sized_line'}:
